@@ -27,6 +27,9 @@ type Case struct {
 	Expr      int    `json:"expr"`                // index into the expression table of the carrier
 	UserBinds string `json:"user_binds"`          // how the using module M2 binds prefix x: other | none | same
 	Companion int    `json:"companion,omitempty"` // 1/2: M2 also writes the same expression on a leaf of its own, before/after the arriving one
+	// OwnClash: M2 knows M1 under the prefix "mone" and binds M1's own prefix "m1" to another module (mb): "m1:" in text
+	// written in M1 still means M1 after that text has been copied into M2
+	OwnClash bool `json:"own_clash,omitempty"`
 	// SubClash: M1 and M2 each include a further submodule that binds the prefixes x and y to other modules than the
 	// including module does (1), those submodules in turn including one more with yet another binding (2); the bindings
 	// of an included submodule are its own and must not show in the module
@@ -118,6 +121,7 @@ func genCase(t *rapid.T) Case {
 		c.Companion = rapid.IntRange(0, 2).Draw(t, "companion")
 	}
 	c.SubClash = []int{0, 0, 1, 2}[rapid.IntRange(0, 3).Draw(t, "subclash")]
+	c.OwnClash = rapid.IntRange(0, 2).Draw(t, "ownclash") == 0
 	return c
 }
 
@@ -183,6 +187,13 @@ func build(c Case) (mods []*sg.Mod, definer string, binds map[string]string, use
 	}
 	bindsM1 := map[string]string{"x": nsA, "y": nsC, "m1": "urn:verif:m1", "": "urn:verif:m1"}
 	bindsM2 := map[string]string{"m1": "urn:verif:m1", "m2": "urn:verif:m2", "": "urn:verif:m2"}
+	u1 := "m1" // the prefix under which M2 knows M1
+	if c.OwnClash {
+		u1 = "mone"
+		m2.Imports[0].Prefix = "mone"
+		m2.Imports = append(m2.Imports, sg.Import{Mod: "mb", Prefix: "m1"})
+		bindsM2["m1"], bindsM2["mone"] = nsB, "urn:verif:m1"
+	}
 	switch c.UserBinds {
 	case "other":
 		bindsM2["x"], bindsM2["y"] = nsB, nsA
@@ -201,15 +212,15 @@ func build(c Case) (mods []*sg.Mod, definer string, binds map[string]string, use
 		m1.Nodes[0].Kids = append(m1.Nodes[0].Kids, &sg.Node{Kind: "uses", Name: "g"})
 	case "grouping-remote":
 		m1.Groupings = []*sg.Grouping{{Name: "g", Kids: []*sg.Node{cn}}}
-		m2.Nodes[0].Kids = append(m2.Nodes[0].Kids, &sg.Node{Kind: "uses", Name: "m1:g"})
+		m2.Nodes[0].Kids = append(m2.Nodes[0].Kids, &sg.Node{Kind: "uses", Name: u1 + ":g"})
 	case "grouping-nested-remote":
 		m1.Groupings = []*sg.Grouping{{Name: "inner", Kids: []*sg.Node{cn}}, {Name: "g", Kids: []*sg.Node{{Kind: "container", Name: "wrap", Kids: []*sg.Node{{Kind: "uses", Name: "inner"}}}}}}
-		m2.Nodes[0].Kids = append(m2.Nodes[0].Kids, &sg.Node{Kind: "uses", Name: "m1:g"})
+		m2.Nodes[0].Kids = append(m2.Nodes[0].Kids, &sg.Node{Kind: "uses", Name: u1 + ":g"})
 	case "grouping-unused":
 		m1.Groupings = []*sg.Grouping{{Name: "g", Kids: []*sg.Node{cn}}}
 	case "augment-from-user":
 		// written in M2, lands in M1's tree
-		m2.Augments = []*sg.Augment{{Target: "/m1:m1-top", Kids: []*sg.Node{cn}}}
+		m2.Augments = []*sg.Augment{{Target: "/" + u1 + ":m1-top", Kids: []*sg.Node{cn}}}
 		definer, binds = "m2", bindsM2
 	case "augment-into-user":
 		// written in M1 (which must then import M2): use a third module M3 as the target instead to avoid an import cycle
@@ -220,27 +231,27 @@ func build(c Case) (mods []*sg.Mod, definer string, binds map[string]string, use
 		binds["m3"] = "urn:verif:m3"
 	case "typedef-remote":
 		m1.Typedefs = []*sg.Typedef{{Name: "t", Type: pathType(c, e)}}
-		m2.Nodes[0].Kids = append(m2.Nodes[0].Kids, &sg.Node{Kind: "leaf", Name: "carrier", Type: &sg.TypeSpec{Name: "m1:t"}})
+		m2.Nodes[0].Kids = append(m2.Nodes[0].Kids, &sg.Node{Kind: "leaf", Name: "carrier", Type: &sg.TypeSpec{Name: u1 + ":t"}})
 	case "typedef-unused":
 		m1.Typedefs = []*sg.Typedef{{Name: "t", Type: pathType(c, e)}}
 	case "uses-when-remote":
 		// the when is written on the uses in M2; the node it lands on comes from M1's grouping
 		m1.Groupings = []*sg.Grouping{{Name: "g", Kids: []*sg.Node{leaf("carrier")}}}
-		m2.Nodes[0].Kids = append(m2.Nodes[0].Kids, &sg.Node{Kind: "uses", Name: "m1:g", When: e})
+		m2.Nodes[0].Kids = append(m2.Nodes[0].Kids, &sg.Node{Kind: "uses", Name: u1 + ":g", When: e})
 		definer, binds = "m2", bindsM2
 	case "augment-when-remote":
 		// the when is written on an augment in M2 whose target is in M1's tree
-		m2.Augments = []*sg.Augment{{Target: "/m1:m1-top", When: e, Kids: []*sg.Node{leaf("carrier")}}}
+		m2.Augments = []*sg.Augment{{Target: "/" + u1 + ":m1-top", When: e, Kids: []*sg.Node{leaf("carrier")}}}
 		definer, binds = "m2", bindsM2
 	case "refine-must-remote":
 		// the must is written in a refine in M2; the refined node comes from M1's grouping
 		m1.Groupings = []*sg.Grouping{{Name: "g", Kids: []*sg.Node{leaf("carrier")}}}
-		m2.Nodes[0].Kids = append(m2.Nodes[0].Kids, &sg.Node{Kind: "uses", Name: "m1:g", Refines: []sg.Refine{{Target: "carrier", Stmts: []string{"must " + sg.Quote(e) + ";"}}}})
+		m2.Nodes[0].Kids = append(m2.Nodes[0].Kids, &sg.Node{Kind: "uses", Name: u1 + ":g", Refines: []sg.Refine{{Target: "carrier", Stmts: []string{"must " + sg.Quote(e) + ";"}}}})
 		definer, binds = "m2", bindsM2
 	case "deviate-add-must":
 		// the must is written in a deviation in M2; the deviated node is in M1's tree
 		m1.Nodes[0].Kids = append(m1.Nodes[0].Kids, leaf("carrier"))
-		m2.Deviations = []*sg.Deviation{{Target: "/m1:m1-top/m1:carrier", Deviates: []sg.Deviate{{Kind: "add", Stmts: []string{"must " + sg.Quote(e) + ";"}}}}}
+		m2.Deviations = []*sg.Deviation{{Target: "/" + u1 + ":m1-top/" + u1 + ":carrier", Deviates: []sg.Deviate{{Kind: "add", Stmts: []string{"must " + sg.Quote(e) + ";"}}}}}
 		definer, binds = "m2", bindsM2
 	case "submodule-grouping-unused", "submodule-typedef-unused":
 		// a definition nobody uses, written in a submodule: its expressions are checked all the same
